@@ -130,8 +130,8 @@ def search(c, cfg, missing):
         bad = re.findall(r'⟨\.(plainWrite|sharedMutCall), "([^"]*)"⟩', m.group(3))
         if bad:
             what = ", ".join(f"{k} {t}" for k, t in bad)
-            wit = _driver(c, "c13 updsearch")
-            c.notes.append(f"unsafe worker {m.group(1)}:{m.group(2)}: {what}; model of an unguarded read-modify-write: {wit}")
+            wit = _driver(c, "c13 redsearch" if all(k == "plainWrite" for k, _ in bad) else "c13 updsearch")
+            c.notes.append(f"unsafe worker {m.group(1)}:{m.group(2)}: {what}; two-thread model of the unguarded read-modify-write: {wit}")
             c.violations.append(dict(
                 site=f"facts:c13/{m.group(1)}:{m.group(2)}", kind="worker-writes-shared-state-unguarded", found_input=False,
                 detail=what, replay=dict(worker=m.group(2), file=m.group(1), effects=what, model_witness=wit,
@@ -140,7 +140,6 @@ def search(c, cfg, missing):
 
 
 PROP = dict(
-    unclaimed=True,
     module="M3d.Props.C13",
     gen=["ConcFacts"],
     corr=dict(quick=300, thorough=1500),
